@@ -140,11 +140,15 @@ def rule_Y5(ctx) -> None:
                  and any(isinstance(c, ast.Constant) and c.value == "typing." for c in ast.walk(n.value))), None)
     ovar = next((n.targets[0].id for n in ast.walk(fn) if isinstance(n, ast.Assign) and isinstance(n.targets[0], ast.Name)
                  and any(isinstance(c, ast.Call) and isinstance(c.func, ast.Attribute) and c.func.attr == "split" for c in ast.walk(n.value))), None)
-    if tvar is None or ovar is None:
-        raise AnalysisError("generate_code: collection of the plugin options / typing.* options not found")
+    if ovar is None:
+        raise AnalysisError("generate_code: collection of the plugin options not found")
 
     def selected(opts):
-        paths = Interp(parser, local_bindings={tvar: tuple(opts)}).run(fn)
+        # the option list bound to constants: the typing.* options are collected from it by folding (also inside a helper)
+        lb = {ovar: tuple("typing." + o for o in opts)}
+        if tvar is not None:
+            lb[tvar] = tuple(opts)
+        paths = Interp(parser, local_bindings=lb, fork_ifexp=True).run(fn)
         ctx.count(len(paths))
         vals = set()
         for p in paths:
@@ -173,7 +177,10 @@ def rule_Y5(ctx) -> None:
         ctx.refuted("Y5", "typing-options-exclusive", "unchecked", parser.loc(fn), "several typing.* options are not rejected")
     pyd = {}
     for on in (True, False):
-        paths = Interp(parser, local_bindings={ovar: ("pydantic_dataclasses",) if on else ("x",), tvar: ()}).run(fn)
+        lb2 = {ovar: ("pydantic_dataclasses",) if on else ("x",)}
+        if tvar is not None:
+            lb2[tvar] = ()
+        paths = Interp(parser, local_bindings=lb2).run(fn)
         ctx.count(len(paths))
         pyd[on] = {any(e.kind == "store" and e.data[0][0] == "a" and e.data[0][2] == "pydantic_dataclasses" and e.data[1] == C(True) for e in p.events)
                    for p in paths if p.outcome != "raise" and any(e.kind == "loop" for e in p.events)}
